@@ -240,7 +240,7 @@ func (r *run) runShard(w wlSpec, bin string, s, n int) {
 		if w.Race {
 			env = append(env, "GORACE=halt_on_error=0 exitcode=0 log_path="+base+".race")
 		}
-		env = append(env, "GOTRACEBACK=all")
+		env = append(env, "GOTRACEBACK=all", "VERIF_ROOT="+root)
 		cmd.Env = env
 		so, _ := os.Create(base + ".out")
 		se, _ := os.Create(base + ".err")
